@@ -92,6 +92,9 @@ var Shapes = []*Shape{
 		e = errors.WithDomain(e, errors.NamedDomain("dom"))
 		return hop(e)
 	}},
+	{"gleaf", "Wrap(&driver.GLeaf[string]): a user-defined generic leaf type", func() error {
+		return errors.Wrap(&GLeaf[string]{Msg: "generic"}, "ctx")
+	}},
 }
 
 // ShapeByName finds a shape.
